@@ -44,6 +44,14 @@ structure BA (m : Mode) (A : List El) : Prop where
   w : W A
   bottom : BottomL A
   anch : AnchOk m A
+  nofs : ∀ e ∈ A, e.isHtml .frameset = false
+
+/-- stack predicate: not `select` -/
+def PNoSel : NP := fun n _ => n ≠ .select
+
+theorem fmtOk_PNoSel : FmtOk PNoSel := by
+  intro n hn
+  cases n <;> simp [formattingNames, Name.isIn] at hn <;> simp [PNoSel]
 
 /-- body-phase invariant of a parser state -/
 structure BInv (s : State) : Prop where
@@ -51,6 +59,8 @@ structure BInv (s : State) : Prop where
   form : ∀ f, s.formPtr = some f → f.isAnchor = false
   /-- in "text" the current node (the raw text element) is no anchor -/
   txt : s.mode = .text → ∃ e r, s.tree.stack = e :: r ∧ e.isAnchor = false
+  /-- a `select` element is on the stack only if the frameset-ok flag is "not ok" -/
+  sel : s.framesetOk = true → StackAll PNoSel s.tree
 
 /-- a stack is its anchor-free prefix followed by its anchor suffix -/
 theorem stack_decomp (st : List El) : ∃ p, st = p ++ anchorSuffix st ∧ ∀ e ∈ p, e.isAnchor = false := by
@@ -86,13 +96,35 @@ theorem BottomL.full {st : List El} (h : BottomL (anchorSuffix st)) : BottomL st
     · exact nonanchor_not_bottomName e (hpn e he)
     · exact hmid e he
 
+theorem nonanchor_not_frameset (e : El) (h : e.isAnchor = false) : e.isHtml .frameset = false := by
+  cases hq : e.isHtml .frameset
+  · rfl
+  · simp only [El.isHtml, Bool.and_eq_true, beq_iff_eq] at hq
+    simp [El.isAnchor, El.isHtmlIn, hq.1, hq.2, anchorNames, Name.isIn] at h
+
+/-- no `frameset` in the anchor suffix: none on the stack -/
+theorem nofs_full {st : List El} (h : ∀ e ∈ anchorSuffix st, e.isHtml .frameset = false) :
+    ∀ e ∈ st, e.isHtml .frameset = false := by
+  obtain ⟨p, hp, hpn⟩ := stack_decomp st
+  intro e he
+  rw [hp] at he
+  rcases List.mem_append.mp he with he | he
+  · exact nonanchor_not_frameset e (hpn e he)
+  · exact h e he
+
 /-- pushing an anchor that is not head / html / body on a stack whose anchor suffix has the invariant -/
 theorem BA.push {m m' : Mode} {st : List El} (h : BA m (anchorSuffix st)) (x : El) (hx : x.isAnchor = true)
-    (hxn : x.isHtmlIn [.head, .html, .body] = false) (hw : W (x :: st) ∨ (W st → W (x :: st)))
+    (hxn : x.isHtmlIn [.head, .html, .body] = false) (hxf : x.isHtml .frameset = false)
+    (hw : W (x :: st) ∨ (W st → W (x :: st)))
     (ha : AnchOk m' (x :: st)) : BA m' (anchorSuffix (x :: st)) := by
   rw [anchorSuffix_cons_anchor x st hx]
   have hwst : W st := W.ofSuffix h.w
-  refine ⟨?_, ?_, ha⟩
+  refine ⟨?_, ?_, ha, ?_⟩
+  rotate_left 2
+  · intro e he
+    rcases List.mem_cons.mp he with rfl | he
+    · exact hxf
+    · exact nofs_full h.nofs e he
   · rcases hw with hw | hw
     · exact hw
     · exact hw hwst
